@@ -474,4 +474,299 @@ theorem subst_trace (x : Var) (a : Arg) : ∀ (b : Blk) (e : Env), e x = a.eval 
     · exact fun hh => hx (by simp [defsAll, hh])
     · exact fun v hv hh => ha v hv (by simp [defsAll, hh])
 
+
+/-! ### definitions that dominate a position (`ctxAlong`) hold in every environment that reaches it -/
+
+/-- every recorded definition is (still) true of the environment -/
+def Holds (fs : List Fact) (e : Env) : Prop := ∀ f ∈ fs, e f.v = f.op.apply I (evalArgs e f.args)
+
+theorem mem_factVars {x : Var} : ∀ {fs : List Fact}, (∃ f ∈ fs, x = f.v ∨ x ∈ argVars f.args) → x ∈ factVars fs
+  | [], h => by obtain ⟨f, hf, _⟩ := h; cases hf
+  | g :: r, h => by
+    obtain ⟨f, hf, hx⟩ := h
+    simp only [factVars, List.mem_cons, List.mem_append]
+    rcases List.mem_cons.mp hf with rfl | hf'
+    · rcases hx with hx | hx
+      · exact Or.inl hx
+      · exact Or.inr (Or.inl hx)
+    · exact Or.inr (Or.inr (mem_factVars ⟨f, hf', hx⟩))
+
+/-- assigning a name that no recorded definition mentions keeps all of them true -/
+theorem Holds_upd {fs : List Fact} {e : Env} (h : Holds I fs e) (d : Var) (x : Val) (hd : d ∉ factVars fs) :
+    Holds I fs (upd e d x) := by
+  intro f hf
+  have h1 : f.v ≠ d := fun hh => hd (mem_factVars ⟨f, hf, Or.inl hh.symm⟩)
+  have h2 : d ∉ argVars f.args := fun hh => hd (mem_factVars ⟨f, hf, Or.inr hh⟩)
+  rw [upd_other _ _ _ _ h1, evalArgs_upd_of_not_mem _ _ _ _ h2]
+  exact h f hf
+
+theorem Holds_snoc {fs : List Fact} {e : Env} (h : Holds I fs e) (d : Var) (op : OpKind) (args : List Arg)
+    (cur : Option Var) (hd : d ∉ factVars fs) (hda : d ∉ argVars args) :
+    Holds I (fs ++ [⟨d, op, args, cur⟩]) (upd e d (op.apply I (evalArgs e args))) := by
+  intro f hf
+  rcases List.mem_append.mp hf with hf | hf
+  · exact Holds_upd I h d _ hd f hf
+  · simp only [List.mem_singleton] at hf
+    subst hf
+    simp only [upd_same, evalArgs_upd_of_not_mem _ _ _ _ hda]
+
+/-- congruence with context: a rewrite of the block suffix at a position that preserves the trace in every
+environment *in which the dominating definitions hold* preserves the trace of the whole program -/
+theorem applyAt_trace_facts (f : Blk → Except Err Blk) (facts : List Fact) (cur' : Option Var)
+    (hf : ∀ s s', f s = .ok s' → ∀ e, Holds I facts e → trace I s' e = trace I s e) :
+    ∀ (b : Blk) (p : List Nat) (acc : List Fact) (cur : Option Var) (b' : Blk),
+      ctxAlong b p acc cur = some (facts, cur') → applyAt f b p = .ok b' →
+      ∀ e, Holds I acc e → trace I b' e = trace I b e
+  | b, [], acc, cur, b', hc, h => by cases b <;> simp [applyAt] at h
+  | .nil, [0], acc, cur, b', hc, h => by
+    simp only [ctxAlong, Option.some.injEq, Prod.mk.injEq] at hc
+    simp only [applyAt] at h; intro e he; exact hf _ _ h e (hc.1 ▸ he)
+  | .pure d op args r, [0], acc, cur, b', hc, h => by
+    simp only [ctxAlong, Option.some.injEq, Prod.mk.injEq] at hc
+    simp only [applyAt] at h; intro e he; exact hf _ _ h e (hc.1 ▸ he)
+  | .eff id args r, [0], acc, cur, b', hc, h => by
+    simp only [ctxAlong, Option.some.injEq, Prod.mk.injEq] at hc
+    simp only [applyAt] at h; intro e he; exact hf _ _ h e (hc.1 ▸ he)
+  | .loop iv lb ub st body r, [0], acc, cur, b', hc, h => by
+    simp only [ctxAlong, Option.some.injEq, Prod.mk.injEq] at hc
+    simp only [applyAt] at h; intro e he; exact hf _ _ h e (hc.1 ▸ he)
+  | .nil, 0 :: q :: p, acc, cur, b', hc, h => by simp [applyAt] at h
+  | .pure d op args r, 0 :: q :: p, acc, cur, b', hc, h => by simp [applyAt] at h
+  | .eff id args r, 0 :: q :: p, acc, cur, b', hc, h => by simp [applyAt] at h
+  | .loop iv lb ub st body r, 0 :: q :: p, acc, cur, b', hc, h => by
+    simp only [ctxAlong] at hc
+    split at hc
+    · simp at hc
+    next hiv =>
+      simp only [List.contains_eq_mem, decide_eq_true_eq] at hiv
+      simp only [applyAt] at h
+      cases hb : applyAt f body (q :: p) with
+      | error x => simp [hb, Except.map] at h
+      | ok body' =>
+        simp only [hb, Except.map, Except.ok.injEq] at h
+        subst h
+        intro e he
+        simp only [trace]
+        congr 1
+        apply flatMap_congr'
+        intro i _
+        exact applyAt_trace_facts f facts cur' hf body (q :: p) acc (some iv) body' hc hb _ (Holds_upd I he iv _ hiv)
+  | .nil, (n + 1) :: p, acc, cur, b', hc, h => by simp [applyAt] at h
+  | .pure d op args r, (n + 1) :: p, acc, cur, b', hc, h => by
+    simp only [ctxAlong] at hc
+    split at hc
+    · simp at hc
+    next hd =>
+      simp only [Bool.or_eq_true, List.contains_eq_mem, decide_eq_true_eq, not_or] at hd
+      simp only [applyAt] at h
+      cases hb : applyAt f r (n :: p) with
+      | error x => simp [hb, Except.map] at h
+      | ok r' =>
+        simp only [hb, Except.map, Except.ok.injEq] at h
+        subst h
+        intro e he
+        simp only [trace]
+        exact applyAt_trace_facts f facts cur' hf r (n :: p) _ cur r' hc hb _ (Holds_snoc I he d op args cur hd.1 hd.2)
+  | .eff id args r, (n + 1) :: p, acc, cur, b', hc, h => by
+    simp only [ctxAlong] at hc
+    simp only [applyAt] at h
+    cases hb : applyAt f r (n :: p) with
+    | error x => simp [hb, Except.map] at h
+    | ok r' =>
+      simp only [hb, Except.map, Except.ok.injEq] at h
+      subst h
+      intro e he
+      simp only [trace]
+      rw [applyAt_trace_facts f facts cur' hf r (n :: p) acc cur r' hc hb e he]
+  | .loop iv lb ub st body r, (n + 1) :: p, acc, cur, b', hc, h => by
+    simp only [ctxAlong] at hc
+    simp only [applyAt] at h
+    cases hb : applyAt f r (n :: p) with
+    | error x => simp [hb, Except.map] at h
+    | ok r' =>
+      simp only [hb, Except.map, Except.ok.injEq] at h
+      subst h
+      intro e he
+      simp only [trace]
+      rw [applyAt_trace_facts f facts cur' hf r (n :: p) acc cur r' hc hb e he]
+
+
+/-! ### the def-use chain `MoveMemrefDims` follows, interpreted -/
+
+theorem lookupFact_some {fs : List Fact} {v : Var} {f : Fact} (h : lookupFact fs v = some f) : f ∈ fs ∧ f.v = v := by
+  unfold lookupFact at h
+  refine ⟨List.mem_of_find?_eq_some h, ?_⟩
+  have := List.find?_some h
+  simpa using this
+
+/-- `memref.dim (memref.subview … [sizes] …), idx` is the idx-th size operand -/
+theorem subview_dim_value (rank idx : Nat) (vals : List Val) (hi : idx < rank) (a : Val)
+    (ha : vals[idx + 1]? = some a) :
+    (OpKind.dim idx).apply I [(OpKind.subview rank).apply I vals] = .int a.toInt := by
+  simp only [OpKind.apply, List.headD, Val.shape]
+  congr 1
+  rw [List.getD_eq_getElem?_getD, List.getElem?_map, List.getElem?_take, if_pos hi, List.getElem?_drop,
+    Nat.add_comm 1 idx, ha]
+  rfl
+
+/-- what the resolved source denotes, compared with the value `x` of the matched dim -/
+def DimSrc.agrees (e : Env) (x : Val) : DimSrc → Prop
+  | .const c => x = .int c
+  | .newDim src i => x = (OpKind.dim i).apply I [e src]
+  | .existing w _ => x = e w
+  | .min _ _ => True
+
+theorem dim_apply_int (i : Nat) (vs : List Val) : ∃ n, (OpKind.dim i).apply I vs = .int n := ⟨_, rfl⟩
+
+/-- in every environment in which the dominating definitions hold, the matched `memref.dim s, idx` has the value of
+what `resolveDim` resolves it to (through any number of nested dim-of-subview steps) -/
+theorem resolveDim_value (fs : List Fact) (bargs : List Var) (here : Option Var) (e : Env) (h : Holds I fs e) :
+    ∀ (fuel : Nat) (s : Var) (idx : Nat) (r : DimSrc), resolveDim fs bargs here fuel s idx = some r →
+      r.agrees I e ((OpKind.dim idx).apply I [e s])
+  | 0, s, idx, r, hr => by simp [resolveDim] at hr
+  | fuel + 1, s, idx, r, hr => by
+    unfold resolveDim at hr
+    split at hr
+    · -- block argument
+      split at hr
+      · simp only [Option.some.injEq] at hr; subst hr; simp [DimSrc.agrees]
+      · simp at hr
+    next v rank args lp hl =>
+      obtain ⟨hmem, hv⟩ := lookupFact_some hl
+      have hs : e s = (OpKind.subview rank).apply I (evalArgs e args) := by
+        have := h _ hmem
+        simp only at this hv
+        rw [← hv]; exact this
+      split at hr
+      next hi =>
+        split at hr
+        next c hc =>
+          simp only [Option.some.injEq] at hr; subst hr
+          simp only [DimSrc.agrees]
+          rw [hs]
+          have := subview_dim_value I rank idx (evalArgs e args) hi (.int c) (by
+            simp [evalArgs, List.getElem?_map, hc, Arg.eval])
+          simpa [Val.toInt] using this
+        next w hw =>
+          have hval : (OpKind.dim idx).apply I [e s] = .int (e w).toInt := by
+            rw [hs]
+            exact subview_dim_value I rank idx (evalArgs e args) hi (e w) (by
+              simp [evalArgs, List.getElem?_map, hw, Arg.eval])
+          split at hr
+          · simp only [Option.some.injEq] at hr; subst hr; simp [DimSrc.agrees]
+          next v2 idx2 s2 lw hl2 =>
+            obtain ⟨hmem2, hv2⟩ := lookupFact_some hl2
+            have hw2 : e w = (OpKind.dim idx2).apply I [e s2] := by
+              have := h _ hmem2
+              simp only at this hv2
+              rw [← hv2]; simpa [evalArgs, Arg.eval] using this
+            have hint : Val.int (e w).toInt = e w := by
+              rw [hw2]; rfl
+            split at hr
+            · simp only [Option.some.injEq] at hr; subst hr
+              simp only [DimSrc.agrees]; rw [hval, hint]
+            · have ih := resolveDim_value fs bargs here e h fuel s2 idx2 r hr
+              rw [hval, hint, hw2]; exact ih
+          · simp at hr
+        · simp at hr
+      · simp at hr
+    · simp at hr
+
+theorem not_mem_argVars_map_subst (d : Var) (a : Arg) (hda : d ∉ argVars [a]) :
+    ∀ (args : List Arg), d ∉ argVars (args.map (substArg d a))
+  | [] => by simp [argVars]
+  | b :: r => by
+    have ih := not_mem_argVars_map_subst d a hda r
+    cases b with
+    | var v =>
+      simp only [List.map, substArg]
+      by_cases hv : v = d
+      · simp only [hv, if_true]
+        cases a with
+        | var w =>
+          have : d ≠ w := fun hh => hda (by simp [argVars, hh])
+          simp [argVars, this, ih]
+        | cst c => simpa [argVars] using ih
+      · simp only [hv, if_false, argVars, List.mem_cons, not_or]
+        exact ⟨fun hh => hv hh.symm, ih⟩
+    | cst c => simpa [List.map, substArg, argVars] using ih
+
+/-- after `replace_all_uses_with d a` (a ≠ d) nothing uses `d` -/
+theorem not_mem_usesOf_subst (d : Var) (a : Arg) (hda : d ∉ argVars [a]) : ∀ (b : Blk), d ∉ usesOf (subst d a b)
+  | .nil => by simp [subst, usesOf]
+  | .pure x op args r => by
+    simp only [subst, usesOf, List.mem_append, not_or]
+    exact ⟨not_mem_argVars_map_subst d a hda args, not_mem_usesOf_subst d a hda r⟩
+  | .eff id args r => by
+    simp only [subst, usesOf, List.mem_append, not_or]
+    exact ⟨not_mem_argVars_map_subst d a hda args, not_mem_usesOf_subst d a hda r⟩
+  | .loop iv lb ub st body r => by
+    simp only [subst, usesOf, List.mem_append, not_or]
+    refine ⟨?_, not_mem_usesOf_subst d a hda body, not_mem_usesOf_subst d a hda r⟩
+    exact not_mem_argVars_map_subst d a hda [lb, ub, st]
+
+
+/-! ### the two local rewrites `MoveMemrefDims` is made of -/
+
+theorem Holds_nil (e : Env) : Holds I [] e := fun f hf => by cases hf
+
+/-- erasing `d = memref.dim s, idx` and replacing its uses by an operand that has the same value wherever the
+dominating definitions hold -/
+theorem replaceDimUses_local (facts : List Fact) (d : Var) (idx : Nat) (s : Var) (a : Arg)
+    (hval : ∀ e, Holds I facts e → (OpKind.dim idx).apply I [e s] = a.eval e) :
+    ∀ b b', replaceDimUses d idx s a b = .ok b' → ∀ e, Holds I facts e → trace I b' e = trace I b e := by
+  intro b b' h e he
+  unfold replaceDimUses at h
+  split at h
+  next d' idx' s' rest =>
+    split at h
+    · simp at h
+    next hc =>
+      simp only [Bool.or_eq_true, bne_iff_ne, ne_eq, decide_eq_true_eq, not_or, Decidable.not_not] at hc
+      obtain ⟨⟨hd, hi⟩, hs⟩ := hc
+      subst hd; subst hi; subst hs
+      split at h
+      · simp at h
+      next hsc =>
+        simp only [Bool.or_eq_true, List.contains_eq_mem, decide_eq_true_eq, List.any_eq_true, not_or, not_exists,
+          not_and] at hsc
+        obtain ⟨hdr, hav⟩ := hsc
+        simp only [Except.ok.injEq] at h
+        subst h
+        have hda : d' ∉ argVars [a] := fun hh => (hav d' hh).1 rfl
+        have hX := hval e he
+        simp only [trace, evalArgs, List.map, Arg.eval]
+        rw [hX]
+        have h1 : trace I (subst d' a rest) e = trace I (subst d' a rest) (upd e d' (a.eval e)) := by
+          apply trace_congr
+          intro v hv
+          have : v ≠ d' := fun hh => not_mem_usesOf_subst d' a hda rest (hh ▸ hv)
+          rw [upd_other _ _ _ _ this]
+        rw [h1]
+        apply subst_trace I d' a rest
+        · rw [upd_same, argEval_upd_of_not_mem _ _ _ _ hda]
+        · exact hdr
+        · exact fun v hv => (hav v hv).2
+  · simp at h
+
+/-- `d = memref.dim s, idx` becomes `d = memref.dim src, i`, which has the same value wherever the dominating definitions hold -/
+theorem replaceDimRhs_local (facts : List Fact) (d : Var) (idx : Nat) (s src : Var) (i : Nat)
+    (hval : ∀ e, Holds I facts e → (OpKind.dim idx).apply I [e s] = (OpKind.dim i).apply I [e src]) :
+    ∀ b b', replaceDimRhs d idx s src i b = .ok b' → ∀ e, Holds I facts e → trace I b' e = trace I b e := by
+  intro b b' h e he
+  unfold replaceDimRhs at h
+  split at h
+  next d' idx' s' rest =>
+    split at h
+    · simp at h
+    next hc =>
+      simp only [Bool.or_eq_true, bne_iff_ne, ne_eq, decide_eq_true_eq, not_or, Decidable.not_not] at hc
+      obtain ⟨⟨hd, hi⟩, hs⟩ := hc
+      subst hd; subst hi; subst hs
+      simp only [Except.ok.injEq] at h
+      subst h
+      simp only [trace, evalArgs, List.map, Arg.eval]
+      rw [hval e he]
+  · simp at h
+
 end SnaxVerif.Loops
